@@ -18,7 +18,7 @@ CMPOPS = ["==", "!=", "<", "<=", ">", ">=", "is", "is not", "in", "not in"]
 AUGOPS = ["+=", "-=", "*=", "/=", "//=", "%=", "@=", "&=", "|=", "^=", ">>=", "<<=", "**="]
 SIMPLE_ESC = ["\\n", "\\t", "\\\\", "\\'", '\\"', "\\a", "\\b", "\\f", "\\r", "\\v", "\\0", "\\7", "\\12", "\\101",
               "\\377", "\\x41", "\\xff", "\\x00", "\\d", "\\ ", "\\%", "\\{"]
-TEXT_ESC = ["\\u00e9", "\\u3042", "\\U0001f600", "\\N{BULLET}", "\\N{LATIN SMALL LETTER A}", "\\uffff", "\\ud800"]
+TEXT_ESC = ["\\400", "\\501", "\\777", "\\08", "\\79", "\\u00e9", "\\u3042", "\\U0001f600", "\\N{BULLET}", "\\N{LATIN SMALL LETTER A}", "\\uffff", "\\ud800"]
 CHARS = ["a", "b", " ", "x", "0", "é", "名", "𝄞", "%", "#", "-", ".", ",", "?", "(", ")"]
 
 
@@ -137,7 +137,7 @@ class Gen:
         for _ in range(r.randrange(0, 5)):
             k = r.randrange(8)
             if k < 2:
-                parts.append(self.ch(["a", " ", "x=", "é", "%", "{{", "}}", "{{}}", "\\n" if not raw else "\\d", "\\N{BULLET}" if not raw else "n", other]))
+                parts.append(self.ch(["a", " ", "x=", "é", "%", "{{", "}}", "{{}}", "\\n" if not raw else "\\d", "\\501" if not raw else "\\7", "\\08", "\\x41", "\\u00e9" if not raw else "u", "\\N{BULLET}" if not raw else "n", other]))
             elif k < 7:
                 parts.append(self.ffield(depth, q, triple, raw))
             else:
